@@ -13,8 +13,9 @@ import sys, os, json, subprocess, tempfile, time, random, shutil, itertools
 
 import z3
 
-REPO = "/repo"
+REPO = os.environ.get("SYMGO_REPO") or "/repo"  # SYMGO_REPO: debug only (a scratch copy; outputs go to SYMGO_OUT)
 VERIF = "/verif"
+OUT = (os.environ.get("SYMGO_OUT") or "/tmp/symgo-out") if os.environ.get("SYMGO_REPO") else VERIF
 ENV = dict(os.environ, GOFLAGS="-mod=mod", GOPROXY="off", GOSUMDB="off", GOTOOLCHAIN="local")
 
 # ----------------------------------------------------------------------------- character sets
@@ -332,6 +333,16 @@ def run_helper(binp, scratch, patterns=(), matches=()):
     out = subprocess.run([binp, f], capture_output=True, check=True).stdout
     return json.loads(out)
 
+def zstr(v):
+    """the Python string of a z3 string value"""
+    w = v.as_string()
+    if "\\" not in w:
+        return w
+    try:
+        return bytes(w, "utf-8").decode("unicode_escape") if "\\u{" not in w else z3_unescape(w)
+    except Exception:
+        return z3_unescape(w)
+
 def member(r, w):
     s = z3.Solver()
     s.set("timeout", 5000)
@@ -366,6 +377,9 @@ def main():
             texts.append(("^" if sa else "") + body + ("$" if ea else ""))
         res = run_helper(binp, scratch, patterns=texts)["patterns"]
         pending = []
+        probes = []
+        probe_cap = 45 if tier == "quick" else 600
+        stats["probe_solver_time_s"] = 0.0
         nres = run_helper(binp, scratch, patterns=NON_REGULAR)["patterns"]
         for t, r in zip(NON_REGULAR, nres):
             stats["non_regular_checked"] = stats.get("non_regular_checked", 0) + 1
@@ -414,6 +428,26 @@ def main():
             stats["solver_time_s"] += time.time() - q0
             if ans == "unsat":
                 stats["equivalence_unsat"] += 1
+                # engine probes: the language is right - does the COMPILED value's Match decide it? The solver picks a
+                # member of the search language and, for anchored patterns, a non-member that CONTAINS a member
+                # (u + m + v); the real Match is run on both below (a fast path that answers by substring search,
+                # drops an anchor or caches by prefix shows up here, Convert's output being unchanged)
+                if stats["probe_solver_time_s"] < probe_cap:
+                    p0 = time.time()
+                    mm, uu, vv = z3.String("m"), z3.String("u"), z3.String("v")
+                    sp = z3.Solver()
+                    sp.set("timeout", 2000)
+                    sp.add(z3.InRe(mm, le), z3.Length(mm) <= 6)
+                    if sa or ea:
+                        sp.push()
+                        sp.add(z3.Not(z3.InRe(z3.Concat(uu, mm, vv), le)), z3.Length(uu) + z3.Length(vv) >= 1, z3.Length(uu) <= 1, z3.Length(vv) <= 1)
+                        if str(sp.check()) == "sat":
+                            mdl = sp.model()
+                            probes.append((t, zstr(mdl.eval(z3.Concat(uu, mm, vv), model_completion=True)), False))
+                        sp.pop()
+                    if str(sp.check()) == "sat":
+                        probes.append((t, zstr(sp.model().eval(mm, model_completion=True)), True))
+                    stats["probe_solver_time_s"] += time.time() - p0
                 if len(samples) < 6:
                     samples.append(dict(pattern=t, converted=r["converted"], verdict="equivalent for all subject strings (unsat)"))
             elif ans == "sat":
@@ -427,6 +461,18 @@ def main():
             else:
                 stats["solver_unknown"] += 1
                 inconclusive.append("z3 answered unknown for pattern %r" % t)
+        if probes:
+            stats["engine_probes"] = len(probes)
+            pres = run_helper(binp, scratch, matches=[(p[0], p[1]) for p in probes])["matches"]
+            for (t, subj, expect), m in zip(probes, pres):
+                og, r2 = m["ogen"], m["regexp2"]
+                if og in ("true", "false") and (og == "true") != expect:
+                    if r2 in ("true", "false") and (r2 == "true") == expect:
+                        violations.append(dict(pattern=t, witness=subj, witness_codepoints=[hex(ord(c)) for c in subj], expected=expect, ogen=og, regexp2=r2,
+                                               why="the compiled pattern's Match disagrees with the language of its own (correctly converted) expression on a solver-chosen probe; regexp2 and the SMT reference agree against ogen"))
+                    else:
+                        stats["witnesses_not_confirmed"] += 1
+                        inconclusive.append("engine probe for %r not confirmed by the two-oracle rule (ogen=%s regexp2=%s expected=%s subject=%r)" % (t, og, r2, expect, subj))
         if pending:
             mres = run_helper(binp, scratch, matches=[(p[0], p[5]) for p in pending])["matches"]
             for (t, ast, sa, ea, conv, wit, le), m in zip(pending, mres):
@@ -449,7 +495,7 @@ def main():
     ssa = subprocess.run([os.path.join(VERIF, "bin", "symgo"), "check", "C08", "--tier", tier], capture_output=True, text=True)
     ssa_ev = {}
     try:
-        ssa_ev = json.load(open(os.path.join(VERIF, "evidence", "C08.json")))
+        ssa_ev = json.load(open(os.path.join(OUT, "evidence", "C08.json")))
     except Exception:
         pass
     for l in ssa.stdout.splitlines():
@@ -461,7 +507,7 @@ def main():
         inconclusive.append("SSA unit convert-total did not finish cleanly (exit %d)" % ssa.returncode)
     known = load_known()
     nviol = 0
-    rdir = os.path.join(VERIF, "replays", "C08")
+    rdir = os.path.join(OUT, "replays", "C08")
     for i, v in enumerate(violations):
         key = known_key(v, known)
         if key:
@@ -503,8 +549,8 @@ def main():
             "out_of_claim": "the matching engines (Go regexp, regexp2) are not executed symbolically - their semantics enter through the RegLan translators (trusted base of a translation-validation claim, validated by witness replay); \\b/\\B, interior anchors, back-references and look-around are outside the regular fragment and only checked for engine choice; Convert's totality on arbitrary bytes is a separate SSA unit (check C08 unit 'convert-total').",
         },
     }
-    os.makedirs(os.path.join(VERIF, "evidence"), exist_ok=True)
-    json.dump(ev, open(os.path.join(VERIF, "evidence", "C08.json"), "w"), indent=1, ensure_ascii=True)
+    os.makedirs(os.path.join(OUT, "evidence"), exist_ok=True)
+    json.dump(ev, open(os.path.join(OUT, "evidence", "C08.json"), "w"), indent=1, ensure_ascii=True)
     print("SUMMARY C08 tier=%s exit=%d patterns=%d go-engine=%d fallback=%d rejected=%d unsat=%d witnesses=%d unconfirmed=%d unknown=%d unsupported=%d solver=%.1fs wall=%.1fs" % (
         tier, exit_code, stats["patterns"], stats["go_engine"], stats["fallback_engine"], stats["rejected"], stats["equivalence_unsat"], stats["witnesses"],
         stats["witnesses_not_confirmed"], stats["solver_unknown"], stats["skipped_unsupported"], stats["solver_time_s"], time.time() - t0))
